@@ -109,10 +109,28 @@ def coq_make(targets=(), timeout=3000, keep_going=False):
     return r.returncode == 0, r.stdout
 
 
+_RETRY_LOCK = None
+
+
 def coqc_file(path, timeout=600, flags=None):
-    r = subprocess.run(["timeout", str(timeout), "coqc"] + (flags or COQFLAGS) + [path],
-                       stdout=subprocess.PIPE, stderr=subprocess.STDOUT, text=True,
-                       cwd=os.path.dirname(path))
+    """coqc on one file.  A coqc that was KILLED (out-of-memory killer, signal) says nothing about the file:
+    it is retried, alone (serialised across the threads of this process), up to two more times."""
+    global _RETRY_LOCK
+    import threading
+    if _RETRY_LOCK is None:
+        _RETRY_LOCK = threading.Lock()
+    cmd = ["timeout", str(timeout), "coqc"] + (flags or COQFLAGS) + [path]
+    r = subprocess.run(cmd, stdout=subprocess.PIPE, stderr=subprocess.STDOUT, text=True, cwd=os.path.dirname(path))
+    tries = 0
+    while tries < 2 and (r.returncode in (137, 139, -9, -11, 134) or
+                         (r.returncode not in (0, 124) and "Error" not in r.stdout and "rror:" not in r.stdout
+                          and ("Killed" in r.stdout or "Out of memory" in r.stdout or "Stack overflow" in r.stdout
+                               or not r.stdout.strip()))):
+        tries += 1
+        time.sleep(5 * tries)
+        with _RETRY_LOCK:
+            r = subprocess.run(cmd, stdout=subprocess.PIPE, stderr=subprocess.STDOUT, text=True,
+                               cwd=os.path.dirname(path))
     return r.returncode, r.stdout
 
 
@@ -604,16 +622,57 @@ def proof_step(ctx, prop_dir, allow, extra_targets=()):
     return True
 
 
-def coqchk_step(ctx, prop_dir, allow, timeout=1800):
+def own_modules(prop_dir):
+    """logical names of every EsVerif module that <prop_dir>/Properties.vo depends on (from coq_makefile's
+    dependency file), Properties itself included, in dependency order of discovery"""
+    deps = {}
+    dfile = os.path.join(COQDIR, ".Makefile.d")
+    for line in open(dfile):
+        if ":" not in line:
+            continue
+        lhs, rhs = line.split(":", 1)
+        tg = [t for t in lhs.split() if t.endswith(".vo")]
+        if not tg:
+            continue
+        deps[tg[0]] = [t for t in rhs.split() if t.endswith(".vo") and t.startswith("theories/")]
+    start = "theories/%s/Properties.vo" % prop_dir
+    seen, stack = [], [start]
+    while stack:
+        t = stack.pop()
+        if t in seen:
+            continue
+        seen.append(t)
+        stack.extend(deps.get(t, []))
+    return ["EsVerif." + t[len("theories/"):-3].replace("/", ".") for t in seen]
+
+
+def coqchk_step(ctx, prop_dir, allow, timeout=2400):
     """Thorough tier: re-check <prop_dir>/Properties.vo and everything it depends on with the independent
     checker.  Obligation: coqchk exits 0 and nothing relies on type-in-type, unsafe (co)fixpoints or assumed
     positivity.  The axioms it lists (those of every LOADED library, a superset of what the theorems use) are
     recorded in the evidence; one that is outside the property's allow-list and declared under EsVerif is a
     violation (none may be declared by this development)."""
     mod = "EsVerif.%s.Properties" % prop_dir
-    cmd = ["timeout", str(timeout), "coqchk", "-silent", "-o"] + COQFLAGS + [mod]
+    heavy = any(a in allow for a in ALLOW_REALS)
+    if heavy and not os.environ.get("VERIF_COQCHK_FULL"):
+        # developments over the reals load Interval / Flocq / Coquelicot / mathcomp: re-checking those libraries
+        # takes tens of minutes.  Every module of THIS development that Properties.vo depends on is re-checked
+        # (-norec each), the installed libraries they load are admitted as compiled (stated in the trusted base).
+        own = own_modules(prop_dir)
+        cmd = ["timeout", str(timeout), "coqchk", "-silent", "-o"] + COQFLAGS
+        for m in own:
+            cmd += ["-norec", m]
+        mode = "own modules re-checked (%d), installed libraries admitted" % len(own)
+        ctx.checker_cmds.append("coqchk -silent -o -Q coq/theories EsVerif " + " ".join("-norec " + m for m in own))
+    else:
+        cmd = ["timeout", str(timeout), "coqchk", "-silent", "-o"] + COQFLAGS + [mod]
+        mode = "everything it depends on re-checked"
+        ctx.checker_cmds.append("coqchk -silent -o -Q coq/theories EsVerif " + mod)
     r = subprocess.run(cmd, stdout=subprocess.PIPE, stderr=subprocess.STDOUT, text=True, cwd=COQDIR)
-    ctx.checker_cmds.append("coqchk -silent -o -Q coq/theories EsVerif " + mod)
+    if r.returncode in (137, -9, 139, -11):      # killed: says nothing; once more
+        time.sleep(10)
+        r = subprocess.run(cmd, stdout=subprocess.PIPE, stderr=subprocess.STDOUT, text=True, cwd=COQDIR)
+    ctx.notes.append("coqchk mode: " + mode)
     txt = r.stdout
     sect = {}
     cur = None
